@@ -78,10 +78,9 @@ Definition grid_out (x : float) : list Z :=
   zs4 (param_color (logical_to_raw (col x x x x))) ++
   codes4 (raw_to_logical (col x x x x)).
 
+(* units.py guards the division (D62): its rgb converters answer for every input *)
 Definition rgb_out (c : color4 float) : list Z :=
-  if hsv_zero_division (PrimFloat.div (c0 c) (z2f 100)) (PrimFloat.div (c1 c) (z2f 100)) (PrimFloat.div (c2 c) (z2f 100))
-  then [0]
-  else codes4 (rgb_to_raw c) ++ codes4 (rgb_to_logical c) ++ zs4 (param_color (rgb_to_raw c)).
+  codes4 (rgb_to_raw c) ++ codes4 (rgb_to_logical c) ++ zs4 (param_color (rgb_to_raw c)).
 
 Definition sweep_fn (id i : Z) : list Z :=
   match id with
